@@ -184,8 +184,9 @@ impl SignalUse {
         self.constraints
             .iter()
             .filter(|constraint| {
-                let lhe = constraint.lhe.signals_read().iter();
-                let rhe = constraint.rhe.signals_read().iter();
+                // Component input signals are tracked as component accesses.
+                let lhe = constraint.lhe.signals_read().iter().chain(constraint.lhe.components_read());
+                let rhe = constraint.rhe.signals_read().iter().chain(constraint.rhe.components_read());
                 lhe.chain(rhe)
                     .any(|signal_use| signal_use.name() == signal && signal_use.access() == access)
             })
